@@ -21,18 +21,17 @@ fn observed(width: usize, slide: usize) -> CSPARQLWindow<u8> {
     w
 }
 /// is `mask` exactly the set of items (bit i <-> timestamp t[i], i < n) inside ONE aligned interval [c-width, c), c <= now?
-fn is_one_aligned_interval(mask: u8, t: &[usize; 3], n: usize, width: usize, slide: usize, now: usize, tmax: usize) -> bool {
+fn is_one_aligned_interval(mask: u8, t: &[usize; 3], n: usize, width: usize, slide: usize, now: usize, _tmax: usize) -> bool {
+    // candidates: c = 0, slide, 2*slide, ... <= now
     let mut c = 0usize;
     let mut ok = false;
-    while c <= tmax {
-        if c % slide == 0 && c <= now {
-            let lo = c.saturating_sub(width);
-            let mut exp = 0u8;
-            let mut i = 0;
-            while i < 3 { if i < n && lo <= t[i] && t[i] < c { exp |= 1 << i; } i += 1; }
-            if exp == mask { ok = true; }
-        }
-        c += 1;
+    while c <= now {
+        let lo = c.saturating_sub(width);
+        let mut exp = 0u8;
+        let mut i = 0;
+        while i < 3 { if i < n && lo <= t[i] && t[i] < c { exp |= 1 << i; } i += 1; }
+        if exp == mask { ok = true; }
+        c += slide;
     }
     ok
 }
@@ -42,6 +41,11 @@ fn adds<const N: usize, const WMAX: usize, const TMAX: usize>() {
     let width: usize = kani::any();
     let slide: usize = kani::any();
     kani::assume(width >= 1 && width <= WMAX && slide >= 1 && slide <= WMAX);
+    adds_with::<N, TMAX>(width, slide)
+}
+/// the same with a CONCRETE window configuration (symbolic timestamps only): what fits the solver for add_to_window
+fn adds_fixed<const N: usize, const W: usize, const S: usize, const TMAX: usize>() { adds_with::<N, TMAX>(W, S) }
+fn adds_with<const N: usize, const TMAX: usize>(width: usize, slide: usize) {
     let mut w = observed(width, slide);
     let mut t = [0usize; 3];
     let mut last_trigger: Option<usize> = None;
@@ -94,3 +98,30 @@ fn add_to_window_2_items() { adds::<2, 2, 4>() }
 #[kani::unwind(9)]
 #[kani::stub(std::sync::mpsc::Sender::send, stub_send)]
 fn add_to_window_3_items() { adds::<3, 2, 5>() }
+
+// concrete (width, slide), symbolic in-order timestamps: hopping with a gap (2,5), sliding with a width that is not a
+// multiple of the slide (3,2), tumbling (2,2)
+#[kani::proof]
+#[kani::unwind(5)]
+#[kani::stub(std::sync::mpsc::Sender::send, stub_send)]
+fn add_to_window_w2_s5_2_items() { adds_fixed::<2, 2, 5, 6>() }
+
+#[kani::proof]
+#[kani::unwind(5)]
+#[kani::stub(std::sync::mpsc::Sender::send, stub_send)]
+fn add_to_window_w2_s5_3_items() { adds_fixed::<3, 2, 5, 11>() }
+
+#[kani::proof]
+#[kani::unwind(6)]
+#[kani::stub(std::sync::mpsc::Sender::send, stub_send)]
+fn add_to_window_w3_s2_2_items() { adds_fixed::<2, 3, 2, 5>() }
+
+#[kani::proof]
+#[kani::unwind(5)]
+#[kani::stub(std::sync::mpsc::Sender::send, stub_send)]
+fn add_to_window_w2_s2_2_items() { adds_fixed::<2, 2, 2, 5>() }
+
+#[kani::proof]
+#[kani::unwind(5)]
+#[kani::stub(std::sync::mpsc::Sender::send, stub_send)]
+fn add_to_window_w2_s5_1_item() { adds_fixed::<1, 2, 5, 6>() }
